@@ -20,13 +20,13 @@ import (
 )
 
 type svCase struct {
-	Key       string     `json:"key"`   // configured MagicCookieKey
-	Value     string     `json:"value"` // configured MagicCookieValue
-	Proto     string     `json:"proto"` // netrpc | grpc
-	Version   int        `json:"version"`
-	Versioned []verEntry `json:"versioned"` // kind 1 netrpc / 2 grpc
-	Env       [][2]string `json:"env"`      // environment of the plugin process (besides VP_CONFIG, TMPDIR)
-	Cert      bool       `json:"cert"`      // PLUGIN_CLIENT_CERT carries a certificate
+	Key       string      `json:"key"`   // configured MagicCookieKey
+	Value     string      `json:"value"` // configured MagicCookieValue
+	Proto     string      `json:"proto"` // netrpc | grpc
+	Version   int         `json:"version"`
+	Versioned []verEntry  `json:"versioned"` // kind 1 netrpc / 2 grpc
+	Env       [][2]string `json:"env"`       // environment of the plugin process (besides VP_CONFIG, TMPDIR)
+	Cert      bool        `json:"cert"`      // PLUGIN_CLIENT_CERT carries a certificate
 }
 
 func init() { families["serve"] = runServe }
